@@ -440,6 +440,26 @@ Proof.
   apply (bucket_envelope_total T B D HT HB (proj1 HD) t0). eapply times_ok_proj; eauto.
 Qed.
 
+(* the time v was first seen (t0 if it never was) *)
+Definition first_seen (t0 : Z) (pc : list (Z * Z)) : Z :=
+  match pc with [] => t0 | (t1, _) :: _ => t1 end.
+
+Theorem ctrl_envelope_total_first r K v t0 tmax calls :
+  guard r v t0 tmax -> fits r K calls -> calls_ok t0 tmax calls -> 0 < tok_count r v ->
+  let T := tok_count r v in let B := r_burst r in let D := r_dur r * 1000 in
+  let adm := adm_of v calls (snd (ctrl_run r metric0 calls)) in
+  let t1 := first_seen t0 (proj v calls) in
+  D * (admitted_tokens (proj v calls) adm - (T + B)) <= T * (last_time t1 (proj v calls) - t1).
+Proof.
+  intros Hg Hf Hok HT T B D adm t1. subst adm. rewrite (adm_of_bucket r K v t0 tmax calls Hg Hf Hok).
+  pose proof (times_ok_proj v calls t0 tmax Hok) as Htimes.
+  destruct Hg as [HB [_ [_ [HD _]]]]. fold T B D. fold B in HB. fold D in HD.
+  assert (Ht1 : times_ok t1 (proj v calls)).
+  { subst t1. destruct (proj v calls) as [|[n b] rest]; [exact I|]. cbn [first_seen times_ok] in *. 
+    destruct Htimes as [_ [Hb Hr]]. repeat split; [lia|exact Hb|exact Hr]. }
+  exact (bucket_envelope_total T B D HT HB (proj1 HD) t1 (proj v calls) Ht1).
+Qed.
+
 Theorem ctrl_envelope_window r K v t0 tmax calls lo hi :
   guard r v t0 tmax -> fits r K calls -> calls_ok t0 tmax calls -> 0 < tok_count r v ->
   hi - lo <= r_dur r * 1000 ->
